@@ -138,6 +138,24 @@ def _nothing_removed(sc, cfg, op):
     return out
 
 
+def _exchange_call_graph(prog, cls, ke):
+    """(starters, removers, callee_name): the methods of the class that record an exchange / take exchanges out of
+    the table themselves or through calls they execute (K.transitive_methods), and the resolver of a call to the
+    name of the method of the class it runs (self.m / cls.m / Class.m / type(self).m), else None."""
+
+    def callee_name(fi, c_):
+        cfi = ke.callee(ke.scope(fi), c_) if isinstance(c_.func, ast.Attribute) else None
+        return cfi.name if cfi is not None and cls.methods.get(cfi.name) is cfi else None
+
+    def records(fi):
+        return any(o.level == "table" and o.kind in ("set", "ensure") for o in K.table_ops(ke.scope(fi), AX))
+
+    def retires(fi):
+        return any(o.level == "table" and (o.kind in ("del", "rebind") or o.kind.startswith("ref:")) for o in K.table_ops(ke.scope(fi), AX))
+
+    return K.transitive_methods(cls, records, callee_name), K.transitive_methods(cls, retires, callee_name), callee_name
+
+
 @R.clause("C14.a", "invariant backlog entry <=> active exchange: atomic functions, entry created before the exchange, every removal compensated")
 def a(ctx):
     prog = ctx.prog
@@ -236,6 +254,7 @@ def a(ctx):
     c03.retransmit_removes_exchange(ctx)
     de = prog.func(MM + "dispatch_error")
     rp = params(de)[1]
+    starters, _removers, callee_name = _exchange_call_graph(prog, cls, ke)
     for f_, o in removals:
         sc = ke.scope(f_)
         cfg = cfg_of(f_)
@@ -256,10 +275,17 @@ def a(ctx):
                 ok = known = False
                 continue
             match_r = (lambda e_: False) if everything else (lambda e_, rs=rs: ke.aval(sc, e_) in rs)
+            pre = []
+            for o2 in ob_:
+                if o2.level == "table" and o2.kind == "del" and ((o2.key is not None and match_r(o2.key)) or (o2.key is None and _is_clear(o2))):
+                    pre.extend(cfg.locate(o2.node))
+            after_drop = cfg.reach(set(pre)) if pre else set()
             for c_ in _self_calls(f_.node, "_continue_backlog"):
                 b_ = _bound(c_, params(prog.func(MM + "_continue_backlog")))
                 if b_ and len(b_) == 1 and match_r(list(b_.values())[0]):
-                    comp.extend(cfg.locate(c_))
+                    # continuing a backlog whose entry the function has dropped continues nothing (it trips
+                    # _continue_backlog's own assertion)
+                    comp.extend(x_ for x_ in cfg.locate(c_) if x_ not in after_drop)
             for o2 in oa:
                 if o2.level == "table" and o2.kind in ("set", "ensure") and o2.key is not None:
                     a2 = remotes_of(sc, o2.key)
@@ -274,9 +300,24 @@ def a(ctx):
                 comp.extend(absent)
             comp.extend(_nothing_removed(sc, cfg, o))
             ncomp += len(comp)
-            if not (comp and cfg.must_pass(nid, comp)):
+            # ... or *preceded* on every path by dropping that remote's entry, which then stays dropped until the
+            # function returns (nothing executed after the drop records an exchange or creates an entry): the
+            # function is atomic (first obligation of this clause), so only the state at its exit counts and
+            # "entry gone, then exchange gone" leaves the same state as "exchange gone, then entry gone"
+            dropped_before = False
+            if pre and nid not in pre and not cfg.exists_path(cfg.entry, nid, avoid=set(pre)):
+                again = set()
+                for o2 in oa + ob_:
+                    if o2.level == "table" and o2.kind in ("set", "ensure", "rebind"):
+                        again.update(cfg.locate(o2.node))
+                for c_ in calls_in(f_.node):
+                    if callee_name(f_, c_) in starters:
+                        again.update(cfg.locate(c_))
+                dropped_before = not (again & (after_drop | set(pre)))
+                ncomp += len(pre) if dropped_before else 0
+            if not ((comp and cfg.must_pass(nid, comp)) or dropped_before):
                 ok = False
-        ctx.ob("removing an exchange is followed on every normal path by continuing or dropping that remote's backlog (or re-inserting the exchange)", ok, f_, o.node,
+        ctx.ob("removing an exchange is followed on every normal path by continuing or dropping that remote's backlog (or re-inserting the exchange), or preceded by dropping it for good", ok, f_, o.node,
                detail="%d compensating site(s)%s" % (ncomp, "" if known else "; the remote of the removed exchange is not determined (%s)" % "; ".join(w for _, w in alts)))
         if f_ is de:
             # removed keys are those of the reported remote
@@ -600,8 +641,43 @@ def e(ctx):
     for f_, c_ in ae:
         if f_ is sf_:
             ctx.ob("the exchange is registered before the message is handed to the transport", bool(tx) and all(not scfg.exists_path(t, scfg.loc1(c_)) for t in tx), sf_, c_)
-    ctx.floor("_send_initially call sites", len(si), 6)
+    # Sites that put a message on the wire without passing the queue: calls of _send_initially, and direct
+    # hand-overs to the transport (`_send_via_transport`, `message_interface.send`) outside the two functions that
+    # *are* the guarded way to the wire.  Which of the two a site uses does not matter to this property (a
+    # direct hand-over starts no exchange and records nothing -- that is C04's business); what matters is that no
+    # confirmable message of a new exchange leaves through them.  The floor counts both kinds together.
     mt = K.MsgTypes(prog, cls)
+    ke = K.KeyEval(prog, cls, AX)
+    wire = []
+    for f_ in mm_funcs(prog):
+        if f_.short in (MM + "_send_initially", MM + "_send_via_transport"):
+            continue
+        for c_ in calls_in(f_.node):
+            cn = call_name(c_) or ""
+            if cn == "self._send_via_transport" or cn.endswith("message_interface.send"):
+                wire.append((f_, c_))
+    ctx.floor("sites that bypass the queue (_send_initially calls + direct hand-overs to the transport)", len(si) + len(wire), 7)
+    for f_, c_ in wire:
+        sc = ke.scope(f_)
+        cfg = cfg_of(f_)
+        arg = c_.args[0] if len(c_.args) == 1 and not c_.keywords and not isinstance(c_.args[0], ast.Starred) else None
+        types = mt.types(sc, arg) if arg is not None else {"?"}
+        by_construction = bool(types) and types <= mt.ALLOWED
+        # a retransmission: the site is dominated by taking the exchange of that very message -- key
+        # (m.remote, m.mid) -- out of the table with a removal that fails when there is none (`pop(key)`,
+        # `del d[key]`): the message is the one confirmable message already open with its remote, not a new one
+        retrans = False
+        av = ke.aval(sc, arg) if arg is not None else None
+        if av is not None and not by_construction:
+            want = ("tuple", (("attr", av, "remote"), ("attr", av, "mid")))
+            nid = cfg.loc1(c_)
+            for o in K.table_ops(sc, AX):
+                if o.level == "table" and o.kind == "del" and o.key is not None and ke.aval(sc, o.key) == want:
+                    strict = not (isinstance(o.node, ast.Call) and len(o.node.args) > 1)
+                    if strict and any(cfg.dominates(x_, nid) for x_ in cfg.locate(o.node)):
+                        retrans = True
+        ctx.ob("a message handed to the transport directly is ACK/RST/NON by construction or the retransmission of the message whose exchange is open", by_construction or retrans, f_, c_,
+               detail="%s: %s" % (stmt_text(sc.deref(arg)) if arg is not None else "?", sorted(types)))
     sp = params(sf_)
     for f_, c_ in si:
         if f_.short in (MM + "send_message", MM + "_continue_backlog"):
@@ -651,7 +727,130 @@ def f(ctx):
                 if rv is not None and r2 is not None and ke.aval(sc, r2) == rv and (cfg.must_pass(nid, [cn]) or cfg.dominates(cn, nid)):
                     ok = True
             ctx.ob("dropping a backlog fails its requests (dispatch_error for the same remote on every path)", ok, fi, n)
+    # The converse: once the requests waiting behind a remote have been failed, none of their messages goes on the
+    # wire any more -- "either transmitted or its request failed"; a transport error / time-out drops the backlog,
+    # it does not continue it.  Releasing = a dequeue from a per-remote queue, executed by the function itself or
+    # by a method of the object it calls (transitively; `_continue_backlog` and whatever wraps it).  A release
+    # that can only be reached through a drop of that remote's entry finds nothing of it any more.
+    _starters, _removers, callee_name = _exchange_call_graph(prog, cls, ke)
+
+    def dequeues(fi):
+        return any(o.level == "elem" and (o.kind in DEQ or o.kind.startswith("ref:")) for o in K.table_ops(ke.scope(fi), BL))
+
+    releasers = K.transitive_methods(cls, dequeues, callee_name)
+    ctx.need("_continue_backlog" in releasers, "_continue_backlog does not dequeue from the backlog: the release path is not what the rule understands")
+    for fi in mm_funcs(prog):
+        sc = ke.scope(fi)
+        fails = [c_ for c_ in calls_in(fi.node) if isinstance(c_.func, ast.Attribute) and c_.func.attr == "dispatch_error" and chain(sc.deref(c_.func.value)) == "self.token_manager"]
+        if not fails:
+            continue
+        cfg = cfg_of(fi)
+        bops = K.table_ops(sc, BL)
+        rel = {}
+        for c_ in calls_in(fi.node):
+            if callee_name(fi, c_) in releasers:
+                for x_ in cfg.locate(c_):
+                    rel[x_] = c_
+        for o in bops:
+            if o.level == "elem" and (o.kind in DEQ or o.kind.startswith("ref:")):
+                for x_ in cfg.locate(o.node):
+                    rel[x_] = o.node
+        for c_ in fails:
+            b_ = _bound(c_, ["exception", "remote"])
+            r2 = b_.get("remote") if b_ else None
+            rv = ke.aval(sc, r2) if r2 is not None else None
+            gone = set()
+            for o in bops:
+                if o.level == "table" and o.kind in ("del", "rebind") and (o.key is None or (rv is not None and ke.aval(sc, o.key) == rv)):
+                    gone.update(cfg.locate(o.node))
+            T = cfg.locate(c_)
+            late = sorted(x_ for x_ in rel if x_ not in T and any(cfg.exists_path(t_, x_, avoid=gone - {x_}) for t_ in T))
+            ctx.ob("once the requests held back behind a remote have been failed, none of their messages is released any more", not late, fi, c_,
+                   detail="; ".join("`%s` still releases from the backlog" % stmt_text(rel[x_]) for x_ in late) or None)
     ctx.floor("backlog deletions", n_del, 3)
+
+
+@R.clause("C14.i", "a backlog entry is dropped only when no exchange with that remote stays open: the dropping function takes the remote's exchanges out (or has tested that none is active) and lets nothing start an exchange between that and the drop")
+def i(ctx):
+    """The half of the invariant `remote in _backlogs <=> an exchange with that remote is active` that C14.a does
+    not decide: C14.a shows `exchange => entry` (insertion side) and that a removed exchange is compensated;
+    this clause shows `no entry => no exchange` at the exit of every function that drops an entry.  A function
+    that drops the entry of remote R while an exchange with R is (still, or again) open leaves a zombie: the next
+    CON to R finds no entry, is sent at once next to the open one (two exchanges with one peer), and the ACK /
+    time-out of the zombie later finds no backlog.  Decided per drop site D of R's entry on the CFG:
+
+    * evidence E that no exchange with R is open: removal of R's exchange(s) from the exchange table (every
+      spelling; the key's remote traced like in C14.a; inductively at most one is open at function entry, a
+      transport error removes all of them), retiring the whole table, or a branch outcome of a test that says
+      `no key of the table has remote R` (any/all/len/membership spellings, as in C14.d);
+    * starters S: direct insertions into the exchange table and calls (executed now, not handed on) of methods of
+      the object that transitively record an exchange -- releasing the backlog (`_continue_backlog`), a first
+      transmission, a re-armed retransmission, or a helper around any of these that the engine did not expand;
+    * obligation 1: no path S ->* D avoids E (after anything that may have opened an exchange, fresh evidence is
+      needed before the entry may go); what is started *after* D re-creates the entry itself (C14.a, insertion
+      side), so only S before D matters;
+    * obligation 2: the function has evidence for R at all (an entry is not dropped by a function that leaves the
+      remote's exchange in the table).
+    Calls on other objects (token manager, monitors) are not followed: whether a callback re-enters the message
+    manager synchronously is outside the rule's vocabulary."""
+    prog = ctx.prog
+    cls = prog.cls("messagemanager.MessageManager")
+    ke = K.KeyEval(prog, cls, AX)
+
+    starters, removers, callee_name = _exchange_call_graph(prog, cls, ke)
+    ctx.need("_add_exchange" in starters and "_continue_backlog" in starters, "no method records an exchange / _continue_backlog does not reach one: the call graph of MessageManager is not what the rule understands")
+    n_drop = 0
+    for fi in mm_funcs(prog):
+        if fi.name == "__init__":
+            continue
+        sc = ke.scope(fi)
+        drops = [o for o in K.table_ops(sc, BL) if o.level == "table" and (o.kind in ("del", "rebind") or o.kind.startswith("ref:"))]
+        if not drops:
+            continue
+        cfg = cfg_of(fi)
+        aops = K.table_ops(sc, AX)
+        S = set()
+        for o2 in aops:
+            if o2.level == "table" and o2.kind in ("set", "ensure"):
+                S.update(cfg.locate(o2.node))
+        hidden = []
+        for c_ in calls_in(fi.node):
+            m_ = callee_name(fi, c_)
+            if m_ in starters:
+                S.update(cfg.locate(c_))
+            elif m_ in removers:
+                hidden.append(c_)
+        for o in drops:
+            n_drop += 1
+            ctx.need(not o.kind.startswith("ref:"), "%s: the removing method of the backlog table is handed on as a value (`%s`); when it runs is outside the rule's vocabulary" % (fi.name, stmt_text(o.node)))
+            rv = ke.aval(sc, o.key) if o.key is not None else None
+            ctx.need(o.key is None or rv is not None, "%s: the key `%s` of the dropped backlog entry is not traced to a parameter" % (fi.name, stmt_text(o.key) if o.key is not None else ""))
+            E = set()
+            for o2 in aops:
+                if o2.level != "table" or o2.kind not in ("del", "rebind"):
+                    continue
+                if o2.kind == "rebind" or o2.key is None:
+                    E.update(cfg.locate(o2.node))  # every exchange is forgotten
+                elif rv is not None:
+                    alts = ke.key_alternatives(sc, o2.key)
+                    if alts and all(rv in rs for rs, _ in alts):
+                        E.update(cfg.locate(o2.node))
+            if rv is not None:
+                for nd in cfg.nodes:
+                    if nd.kind in ("T", "F") and nd.ast is not None and not isinstance(nd.ast, (ast.For, ast.AsyncFor)):
+                        ap = ke.exists_polarity(sc, nd.ast, rv)
+                        if ap is not None and (nd.kind == "T") != ap:
+                            E.add(nd.id)
+            if not E and hidden:
+                ctx.need(False, "%s: exchanges are taken out of the table inside `%s`, which the engine did not expand; which remote's exchanges go is outside the rule's vocabulary" % (fi.name, stmt_text(hidden[0])))
+            ctx.ob("a function that drops a remote's backlog entry takes that remote's exchanges out of the table (or has tested that none is active)", bool(E), fi, o.node,
+                   detail="remote: %s" % (stmt_text(o.key) if o.key is not None else "every remote"))
+            D = set(cfg.locate(o.node))
+            late = sorted(s_ for s_ in S if s_ in D or any(cfg.exists_path(s_, d_, avoid=E - {s_}) for d_ in D))
+            ctx.ob("nothing that may start an exchange with the remote runs between the last evidence that none is open and the drop of its backlog entry (no zombie exchange without a backlog entry)",
+                   not late, fi, o.node,
+                   detail="; ".join("`%s` reaches the drop with no removal of the remote's exchanges / no `none active` test in between" % stmt_text(cfg.nodes[s_].ast) for s_ in late if cfg.nodes[s_].ast is not None) or None)
+    ctx.floor("backlog entry drops", n_drop, 3)
 
 
 @R.clause("C14.g", "an acknowledgement always ends the exchange ahead of the queue: every incoming ACK/RST reaches _remove_exchange (shared with C03.e)")
@@ -694,3 +893,11 @@ R.seed("C14.d", F_MM, "                next_message, messageerror_monitor = self
 R.seed("C14.e", F_MM, "        rst = Message(_mtype=RST, _mid=message.mid, code=EMPTY, payload=b\"\")\n        rst.remote = message.remote.as_response_address()\n        # not going", "        rst = Message(_mtype=CON, _mid=message.mid, code=EMPTY, payload=b\"\")\n        rst.remote = message.remote.as_response_address()\n        # not going", "a CON bypasses the queue")
 R.seed("C14.g", F_MM, "        if message.code.is_request():\n            # Responses", "        if not message.code.is_response():\n            # Responses", "empty ACK/RST pass the duplicate filter first: an ACK with a recently seen message ID never ends the exchange")
 R.seed("C14.h", "aiocoap/tokenmanager.py", "                    lambda request=request, exception=exception: request.add_exception(\n                        exception\n                    )", "                    lambda: request.add_exception(\n                        exception\n                    )", "held-back requests are neither sent nor failed")
+
+# third pass: the entry may go only when no exchange of that remote stays (or comes) open; direct hand-overs to the transport
+R.seed("C14.i", F_MM, "            cancellable_timeout.cancel()\n            # not triggering the messageerror_monitor", "            cancellable_timeout.cancel()\n            self._continue_backlog(remote)\n            # not triggering the messageerror_monitor", "a transport error releases the next held-back message (a new exchange) and then drops the backlog entry: zombie exchange")
+R.seed("C14.i", F_MM, "            del self._backlogs[message.remote]\n            self.token_manager.dispatch_error(\n                error.ConRetransmitsExceeded(", "            self._continue_backlog(message.remote)\n            del self._backlogs[message.remote]\n            self.token_manager.dispatch_error(\n                error.ConRetransmitsExceeded(", "the time-out releases the next held-back message and then drops the entry of the remote it was just sent to")
+R.seed("C14.i", F_MM, "            (messageerror_monitor, cancellable_timeout) = self._active_exchanges.pop(k)\n            cancellable_timeout.cancel()", "            (messageerror_monitor, cancellable_timeout) = self._active_exchanges[k]\n            cancellable_timeout.cancel()", "a transport error cancels the timers but leaves the exchanges in the table while the backlog entry goes")
+R.seed("C14.e", F_MM, "        rst = Message(_mtype=RST, _mid=message.mid, code=EMPTY, payload=b\"\")\n        rst.remote = message.remote.as_response_address()\n        # not going via send_message because that would strip the mid, and we\n        # already know that it can go straight to the wire\n        self._send_initially(rst)", "        rst = Message(_mtype=CON, _mid=message.mid, code=EMPTY, payload=b\"\")\n        rst.remote = message.remote.as_response_address()\n        self._send_via_transport(rst)", "a confirmable message handed to the transport directly: neither queued nor tracked")
+R.seed("C14.e", F_MM, "            self._backlogs[message.remote].append((message, messageerror_monitor))\n        else:\n            self._send_initially(message, messageerror_monitor)", "            self._backlogs[message.remote].append((message, messageerror_monitor))\n        else:\n            self._store_response_for_duplicates(message)\n            self._send_via_transport(message)", "send_message hands what it does not queue directly to the transport: the first CON to a peer opens no exchange, so nothing is ever held back")
+R.seed("C14.f", F_MM, "                error.ConRetransmitsExceeded(\"Retransmissions exceeded\"), message.remote\n            )\n", "                error.ConRetransmitsExceeded(\"Retransmissions exceeded\"), message.remote\n            )\n            if message.remote in self._backlogs:\n                self._continue_backlog(message.remote)\n", "after failing the held-back requests the time-out still tries to release them")
